@@ -36,7 +36,8 @@ def run(rep, tier):
     def drive(t):
         flavour, exe, i, scale = t
         out = os.path.join(work, "stream_%s_%d.ndjson" % (flavour, i))
-        rc, o, _ = common.run([exe, out, str(common.seed() * 1000 + i + 1 + (500 if flavour == "asan" else 0)), str(scale)],
+        rc, o, _ = common.run([exe, out, str(common.seed() * 1000 + i + 1 + (500 if flavour == "asan" else 0)), str(scale),
+                               "1" if flavour == "asan" else "3"],
                               timeout=3000, check=False, env=env)
         return out, rc, o
 
@@ -58,7 +59,7 @@ def run(rep, tier):
 
     with ThreadPoolExecutor(8) as ex:
         results = list(ex.map(check, jobs))
-    nobj = ncuts = nflips = 0
+    nobj = ncuts = nflips = nswaps = nv0 = nv0coll = nver = 0
     kinds = set()
     for (out, recs), (acc, rejects, tl) in zip(jobs, results):
         for rj in rejects:
@@ -73,13 +74,27 @@ def run(rep, tier):
                 rep.sample({"object": x["kind"], "bytes": x["full"], "outcome_per_prefix_length": x["outcomes"][:12] + ["..."] + x["outcomes"][-3:]}, limit=4)
             if x["e"] == "Flips":
                 nflips += len(x["outcomes"])
+            if x["e"] == "Swaps":
+                nswaps += len(x["outcomes"])
+            if x["e"] == "VersionFlips":
+                nver += len(x["outcomes"])
+            if x["e"] == "FlipsV0":
+                nv0 += len(x["outcomes"])
+                nv0coll += len([1 for o, c in zip(x["outcomes"], x["collides"]) if o == 0 and c == 1])
     if not rep.violations and (nobj < 100 or len(kinds) < 10):
         raise CheckError("stream corpus too small: %d objects of kinds %s" % (nobj, sorted(kinds)))
+    if not rep.violations and (nswaps < 1000 or nv0 < 1000 or nver < 300):
+        raise CheckError("stream corpus too small: %d element swaps, %d alterations of version-0 streams, %d version alterations" % (nswaps, nv0, nver))
+    rep.add(payload_element_swaps=nswaps, version0_payload_alterations=nv0, version0_hash_collisions_read=nv0coll, newer_version_alterations=nver)
     rep.add(evaluations=ncuts + nflips, distinct_nontrivial=ncuts, objects=nobj, truncations=ncuts, payload_byte_alterations=nflips,
             object_kinds=sorted(kinds), exhaustive=True, traces_validated_against_impl=nobj,
             rule="every strict prefix length 0..full-1 of every serialised object of the corpus (tensors of 10 scalar types x rank 1..5, "
                  "parameters, features, configured solver/loss/splitter/tuner/line-search objects, fitted weak learners, linear and gboost "
-                 "models) plus every single-byte alteration of every located tensor payload; each (object, offset) pair is a distinct case")
+                 "models, unfitted and fitted on regression / classification / multi-output problems; hand-built version-0 tensor streams) plus "
+                 "single-byte alterations (one bit, +1, another value; one bit in the sanitizer build) of every byte of every located tensor "
+                 "payload (also of the weak learners nested in gboost streams), exchanges of two unequal payload elements and version fields "
+                 "altered to a newer version; each (object, offset) pair is a distinct case; an altered version-0 stream may be read only if "
+                 "its content collides under the old hash (computed by the driver)")
     rep.assume("driver and library compiled with -fsanitize=address,undefined: an out-of-bounds read or crash stops the driver (reported)",
                "bytes of string/vector length fields are not altered (not tensor payload; readers would allocate up to 4e9 elements)",
                "round-trip identity (equal parameters, bit-identical predictions) is computed by the driver and logged as a boolean")
